@@ -268,8 +268,17 @@ def state_classes(isv: Func):
     p = isv.params[0]
     for n in ast.walk(isv.node):
         if isinstance(n, ast.Compare) and len(n.ops) == 1 and isinstance(n.ops[0], ast.In) \
-                and dotted(n.left) == p and isinstance(n.comparators[0], (ast.Tuple, ast.List, ast.Set)):
-            exact |= {string_value(e) for e in n.comparators[0].elts}
+                and dotted(n.left) == p:
+            c = n.comparators[0]
+            if isinstance(c, ast.Name):
+                c = isv.module.assigns.get(c.id, c)
+            if isinstance(c, (ast.Tuple, ast.List, ast.Set)):
+                exact |= {string_value(e) for e in c.elts}
+            elif isinstance(c, ast.Call) and c.args and isinstance(c.args[0], (ast.Tuple, ast.List, ast.Set)):
+                exact |= {string_value(e) for e in c.args[0].elts}
+            elif string_value(c) is not None:
+                # `name in "<t><dt>"` (a tuple that lost its comma) is a substring test
+                isv.substring_tests = getattr(isv, "substring_tests", []) + [string_value(c)]
         if isinstance(n, ast.Compare) and len(n.ops) == 1 and isinstance(n.ops[0], ast.Eq) \
                 and dotted(n.left) == p:
             exact.add(string_value(n.comparators[0]))
@@ -286,9 +295,66 @@ def state_classes(isv: Func):
                     prefixes |= {string_value(e) for e in v.args[0].elts}
             else:
                 prefixes.add(string_value(a))
+    # classification by a compiled regular expression "<(tag)>": read the pattern
+    for n in ast.walk(isv.node):
+        if isinstance(n, ast.Call) and isinstance(n.func, ast.Attribute) \
+                and n.func.attr in ("match", "search", "fullmatch") and isinstance(n.func.value, ast.Name) \
+                and n.args and dotted(n.args[0]) == p:
+            pat = isv.module.assigns.get(n.func.value.id)
+            src = string_value(pat.args[0]) if isinstance(pat, ast.Call) and pat.args \
+                and (dotted(pat.func) or "").endswith("compile") else None
+            if src is None:
+                raise AnalysisError("is_state_variable: regular expression not resolved")
+            verdict = _tag_regex(src, n.func.attr)
+            tags = set()
+            for c_ in ast.walk(isv.node):
+                if isinstance(c_, ast.Compare) and len(c_.ops) == 1 and isinstance(c_.ops[0], ast.In) \
+                        and "group(1)" in ast.unparse(c_.left):
+                    col = c_.comparators[0]
+                    if isinstance(col, ast.Name):
+                        col = isv.module.assigns.get(col.id, col)
+                    if isinstance(col, ast.Call) and col.args:
+                        col = col.args[0]
+                    if isinstance(col, (ast.Tuple, ast.List, ast.Set)):
+                        tags |= {string_value(e) for e in col.elts}
+            if verdict is None:
+                prefixes |= {f"<{t}>" for t in tags if t}
+            else:
+                isv.regex_problem = f"pattern {src!r}: {verdict}"
     exact.discard(None)
     prefixes.discard(None)
     return exact, prefixes
+
+
+def _tag_regex(src, how):
+    """None if the pattern reads the *leading* tag '<tag>' of a name; else why not."""
+    import re._parser as rp
+    try:
+        parsed = list(rp.parse(src))
+    except Exception as e:                      # pragma: no cover
+        raise AnalysisError(f"is_state_variable: cannot parse pattern {src!r}: {e}")
+    if how == "search" and not (parsed and parsed[0][0] == rp.AT):
+        return "search() without '^' finds a tag anywhere in the name"
+    i = 1 if parsed and parsed[0][0] == rp.AT else 0
+    if not (len(parsed) > i and parsed[i] == (rp.LITERAL, ord("<"))):
+        return "does not start with a literal '<'"
+    if not (len(parsed) > i + 1 and parsed[i + 1][0] == rp.SUBPATTERN):
+        raise AnalysisError(f"is_state_variable: pattern {src!r} not understood")
+    inner = list(parsed[i + 1][1][3])
+    for op, av in inner:
+        if op == rp.MAX_REPEAT:
+            item = list(av[2])
+            if item and item[0][0] == rp.ANY:
+                return ("a greedy '.*' runs to the LAST '>' of the name: '<p>w_<func>f' is "
+                        "read as tag 'p>w_<func', which is not persistent")
+            if item and item[0][0] == rp.IN and not any(
+                    x == (rp.NEGATE, None) for x in item[0][1]):
+                pass
+        if op == rp.ANY:
+            return "'.' in the tag"
+    if not (len(parsed) > i + 2 and parsed[i + 2] == (rp.LITERAL, ord(">"))):
+        return "tag group is not followed by a literal '>'"
+    return None
 
 
 RIGHT_ANCHORED = {"rpartition", "rsplit", "rfind", "rindex", "endswith", "removesuffix"}
@@ -307,7 +373,21 @@ def _storage(run, P):
            why="the persistent class of a name is decided by its leading tag; a test "
                "anchored at the right end misclassifies names whose NAME part "
                "contains the separator, and the variable silently becomes per-step")
+    isv.substring_tests = []
+    isv.regex_problem = None
     exact, prefixes = state_classes(isv)
+    if isv.regex_problem:
+        run.ob("C13.storage", isv, isv.node, False,
+               construct=f"is_state_variable reads the leading tag of the name ({isv.regex_problem})",
+               why="a persistent variable whose name contains a second tag is classified "
+                   "per-step: fusion renames it, the generators keep it in locals")
+    run.ob("C13.storage", isv, isv.node, not isv.substring_tests,
+           construct="is_state_variable: membership tests are against collections of names"
+                     + (f" (found: name in {isv.substring_tests[0]!r}, a substring test)"
+                        if isv.substring_tests else ""),
+           why="'in' against a string matches every substring: temporaries called 't', "
+               "'dt' or 'd' become persistent, survive a failed step and are stored on "
+               "the generated object")
     # names the interpreter's set_up stores
     su = P.func("dagrt.exec_numpy.NumpyInterpreter.set_up")
     stored_exact, stored_prefix = set(), set()
